@@ -32,21 +32,21 @@ CLAIMED = {
         technique="MIR guard-edge dominance + interprocedural caller-chain check for constant-0 ring positions; must-pass-through; field-set agreement + strict guard relation for the sentinel slot",
         text="Partial: the ring invariants the WAL code relies on are decided on all paths - a ring position becomes 0 only where pending_bytes == 0 is established "
              "(in the function or at every caller), an append writes only after both capacity comparisons and is always followed by the sentinel, a checkpoint stores "
-             "exactly the reviewed fields from write_head/sequence, scan reports a record only after checksum equality and bounds, records_after filters strictly by sequence. The zero sentinel is written only where pending_bytes < region_size (a full ring has no free slot). On the open path every value placed in EmbeddedWal.sequence derives from Header.wal_sequence or the handle's own counters, so numbering continues after the checkpoint.",
+             "exactly the reviewed fields from write_head/sequence, scan reports a record only after checksum equality and bounds, records_after filters strictly by sequence. The zero sentinel is written only where pending_bytes < region_size (a full ring has no free slot). On the open path every value placed in EmbeddedWal.sequence derives from Header.wal_sequence or the handle's own counters, so numbering continues after the checkpoint. The pending byte count on the open path is the sum of total_size over scanned records selected by sequence.",
         note="Not decided: the exhaustive state-space claim over operation sequences and sizes (value reasoning). The rule found a genuine defect on the pinned tree (sentinel wrap), repaired by fix commit f7468a8.",
         design_ref="DESIGN.md §4 C05"),
     "C01": dict(
         technique="MIR must-pass-through (success-edge dominance of Ok exits) + who-may-call tables over the call graph + sign-abstraction direction analysis of in-place block-move loops",
         text="Partial (protocol skeleton): on every path an acknowledged put/update/delete is dominated by a successful WAL append; the log window "
              "(record_checkpoint) moves only after apply_records succeeded on the WAL's own pending records, at the reviewed call sites only; open returns "
-             "Ok only after recover_wal replayed records_after(header.wal_sequence); drop commits on the dirty edge and every acknowledged append sets dirty; the in-place block move that shifts committed bytes when the WAL grows walks away from its destination (memmove direction rule). WAL append sites are recognised through thin wrappers.",
+             "Ok only after recover_wal replayed records_after(header.wal_sequence); drop commits on the dirty edge and every acknowledged append sets dirty; the in-place block move that shifts committed bytes when the WAL grows walks away from its destination (memmove direction rule). WAL append sites are recognised through thin wrappers. The pending byte count of a reopened WAL derives from the scanned records newer than the checkpoint (an under-count would let the next append overwrite acknowledged records).",
         note="Not decided: equality with a reference model over histories (runtime values), content fidelity across in-place WAL growth.",
         design_ref="DESIGN.md §4 C01"),
     "C03": dict(
         technique="interprocedural sync typestate (write=>unsynced, fsync=>clean; bottom-up summaries to a fixpoint over 650+ functions) + ordering dominance + ordered growth-protocol rule (shift, adjust, rewrite TOC, persist header, sync)",
         text="Partial (sync-before-ack): every acknowledging function (put, delete, commit variants, tickets, vacuum, WAL growth, create, open-time replay) "
              "returns Ok only in the clean state on all paths; the staging file is clean at the rename; write_record's only deferral is the skip_sync edge whose "
-             "protocol (set only by begin/end_batch, flush before clearing) is checked; the header is published only after the TOC/footer was written and synced. A WAL growth on behalf of an acknowledged put rewrites the TOC with the adjusted offsets, persists the header and syncs before it returns.",
+             "protocol (set only by begin/end_batch, flush before clearing) is checked; the header is published only after the TOC/footer was written and synced. A WAL growth on behalf of an acknowledged put rewrites the TOC with the adjusted offsets, persists the header and syncs before it returns. A WAL opened from a header numbers its next record after Header.wal_sequence (a put numbered at or below the checkpoint is synced and then ignored by every replay).",
         note="Not decided: torn writes, directory durability inside atomic-write-file (trusted), whether the file opens after loss. Reviewed exemption: the WAL end sentinel. "
              "recover_wal's empty-log branch (re-derivable Tantivy flush) is out of scope by rule.",
         design_ref="DESIGN.md §4 C03"),
@@ -55,7 +55,7 @@ CLAIMED = {
         text="Partial (idempotence link): the branch of recover_wal that applied pending records returns Ok only through apply_records -> record_checkpoint -> "
              "persist_header(self.header) -> sync_all, so the advanced wal_sequence is durable before the open returns and a second open cannot replay the same "
              "records; open_locked rewrites the header on the TOC-recovery arm only under the differs-from-stored test, with the recovered values; no header persist is reachable between apply_records and record_checkpoint "
-             "(single publication point); the delete/supersede appliers have no error exit that depends on the frame's status (replay is idempotent).",
+             "(single publication point); the delete/supersede appliers have no error exit that depends on the frame's status (replay is idempotent). In rebuild_indexes every in-place index write is followed on every Ok path by rebuild_indexes' own rewrite_toc_footer (open-time recovery relies on it to leave a footer behind the index bytes).",
         note="Not decided: crashes *during* recovery in general (crash points), nested recovery; equality of the recovered state with an uninterrupted recovery. Known finding (open): "
              "rebuild_indexes persists the header (old wal_sequence) inside the replay window, so a crash between the two header writes duplicates the replayed frames.",
         design_ref="DESIGN.md §4 C04"),
@@ -63,7 +63,7 @@ CLAIMED = {
         technique="crate-wide who-may-mutate scan of Toc.frames (resolved callees through &mut borrows) + data-dependence of Frame.id + must-pass-through for the pending counter + wrapper-aware site discovery (a local function that appends on every Ok path is the append for its callers)",
         text="Partial: Toc.frames is structurally mutated at exactly one site (push in apply_records; every other &mut use is element access; never replaced; Frame.id never "
              "stored; Frame constructed only at reviewed sites), the pushed id is toc.frames.len() re-read in the same loop iteration, every successful insert append in "
-             "put_internal increments pending_frame_inserts before the next append/Ok, the counter is reset only after apply_records, next_frame_id reads len + counter only. A tombstone append never advances the counter (the counter counts inserts); append sites are recognised through thin wrappers.",
+             "put_internal increments pending_frame_inserts before the next append/Ok, the counter is reset only after apply_records, next_frame_id reads len + counter only. A tombstone append never advances the counter (the counter counts inserts); append sites are recognised through thin wrappers. Every function that materialises the pending inserts (apply_records) resets pending_frame_inserts on every Ok path.",
         note="Not decided: equality of next_frame_id() with the id later assigned across auto-checkpoints and reopen (value reasoning over histories).",
         design_ref="DESIGN.md §4 C06"),
     "C08": dict(
@@ -77,7 +77,7 @@ CLAIMED = {
         technique="flow- and field-sensitive def-use analysis of the candidate-filter variable in Memvid::search (found by type/use) + edge-cut reachability in get_replay_frame_ids + dead-parameter check in the three engines + edge-cut reachability of the replay step in Memvid::search",
         text="Partial, strong: after the replay stage the candidate filter can only narrow (every redefinition in the Some(existing) arm derives from existing), the replay "
              "ids reach the filter in both arms and all three engine paths receive and use that filter; get_replay_frame_ids pushes frame.id only past "
-             "(cut-off None | frame.id <= cut-off) and (None | frame.timestamp <= cut-off), never through a binary search on a non-id key. The engines are reachable without get_replay_frame_ids only through the edge establishing as_of_ts is None.",
+             "(cut-off None | frame.id <= cut-off) and (None | frame.timestamp <= cut-off), never through a binary search on a non-id key. The engines are reachable without get_replay_frame_ids only through the edge establishing as_of_ts is None. The per-frame cut-off filter is recognised in loop form and in iterator-chain form (filter(is_none_or(|c| frame.x <= c))); the narrowing of the candidate filter in search is recognised inline and through a private narrowing helper.",
         note="Not decided: what the engines return beyond honouring the filter. The rule found a genuine defect (sketch-only fallback dropped the replay filter), repaired by fix commit 321ffd9.",
         design_ref="DESIGN.md §4 C11"),
     "C10": dict(
@@ -118,7 +118,7 @@ CLAIMED = {
     "C24": dict(
         technique="guard-edge dominance of every WAL append by the capacity comparison + coupling check (fields read by the guard vs fields advanced on the acknowledged path, through callee bodies) + field-read coverage of the usage seed + same-call agreement between the admitted and the stored payload",
         text="Partial: every WAL append in put_internal is dominated by projected <= capacity_limit() with the failing edge returning CapacityExceeded, projected includes the "
-             "incoming payload, capacity_limit is ticket-or-tier, cached_payload_end is monotone; and the usage counter the guard reads must be advanced by the put path itself. The open-time seed of the usage counter ranges over every frame that owns payload bytes (no Frame field other than payload_offset/payload_length is read). Every prepared buffer whose length the capacity guard admits is the buffer stored in the WAL entry.",
+             "incoming payload, capacity_limit is ticket-or-tier, cached_payload_end is monotone; and the usage counter the guard reads must be advanced by the put path itself. The open-time seed of the usage counter ranges over every frame that owns payload bytes (no Frame field other than payload_offset/payload_length is read). Every prepared buffer whose length the capacity guard admits is the buffer stored in the WAL entry. Both WAL-growth paths move the usage counter (cached_payload_end) by delta.",
         note="Not decided: the numeric bound over histories. Known finding (open): the guard's counter is only advanced at commit, so un-committed puts are not counted. "
              "Untriaged candidate (not armed): enable_vec()/manifest.dimension are stored before the capacity check.",
         design_ref="DESIGN.md §4 C24"),
@@ -137,7 +137,7 @@ CLAIMED = {
     "C14": dict(
         technique="enum-arm payload-use analysis vs call-graph reachability of each representation's builder (per configuration) + data-flow wiring of build_vec_artifact / update_frame / apply_records",
         text="Partial: a VecIndex representation whose entries/embedding_for/remove arms ignore the payload must have no builder reachable from the Memvid API in the analysed "
-             "configuration; build_vec_artifact = active(existing entries) + new docs and its result is installed; updates carry the old embedding; apply_records records the embedding under the pushed id. Reachable representations are derived from the VecIndex::<Variant> constructions reachable from the API. build_vec_artifact answers None only where vectors are disabled (rebuild_indexes keeps the old manifest on None).",
+             "configuration; build_vec_artifact = active(existing entries) + new docs and its result is installed; updates carry the old embedding; apply_records records the embedding under the pushed id. Reachable representations are derived from the VecIndex::<Variant> constructions reachable from the API. build_vec_artifact answers None only where vectors are disabled (rebuild_indexes keeps the old manifest on None). The tests guarding update_frame's carry-over lookup do not read the persisted index manifests (which lag the in-memory index between commit_skip_indexes and finalize_indexes).",
         note="Not decided: membership over histories (values). Thorough tier also analyses the `wide` feature configuration, where the Hnsw representation is reachable (known finding, config=wide).",
         design_ref="DESIGN.md §4 C14"),
     "C07": dict(
@@ -145,7 +145,7 @@ CLAIMED = {
         text="Partial (codec pairing and provenance): every CanonicalEncoding produced is decoded by its inverse callee, stored-payload reads return only past the canonical_length "
              "equality test, a chunked document's canonical payload is the concatenation of its children ordered by (chunk_index, id), and a chunk manifest that replaces the "
              "stored payload on read must derive from the payload bytes themselves; every std Read call on a File is dominated by a seek on the handle in the same function "
-             "(cloned handles share one cursor). The chunk plan cut from extracted text is computed only where the payload's own plan is None.",
+             "(cloned handles share one cursor). The chunk plan cut from extracted text is computed only where the payload's own plan is None. In the chunk planner the value compared with a *_CHARS threshold is a character count, not a byte length.",
         note="Not decided: byte equality of reads with puts (values), text normalisation. Known finding (open): chunk manifests planned from extracted (lossy) text make the "
              "canonical payload of a large non-UTF-8 document differ from the stored bytes.",
         design_ref="DESIGN.md §4 C07"),
